@@ -31,21 +31,25 @@ namespace igris
             memset(_data, 0, sizeof(_data));
         }
 
-        static_vector(const static_vector &other)
+        // The constructors that construct elements delegate to
+        // static_vector() first: the object is then complete, and if an
+        // element constructor throws, ~static_vector() destroys the m_size
+        // elements constructed so far.
+        static_vector(const static_vector &other) : static_vector()
         {
-            m_size = other.m_size;
-            for (std::size_t pos = 0; pos < m_size; ++pos)
+            for (std::size_t pos = 0; pos < other.m_size; ++pos)
             {
                 new (&_data[pos]) T(other[pos]);
+                ++m_size;
             }
         }
 
-        static_vector(static_vector &&other)
+        static_vector(static_vector &&other) : static_vector()
         {
-            m_size = other.m_size;
-            for (std::size_t pos = 0; pos < m_size; ++pos)
+            for (std::size_t pos = 0; pos < other.m_size; ++pos)
             {
                 new (&_data[pos]) T(std::move(other[pos]));
+                ++m_size;
             }
             other.clear();
         }
@@ -77,7 +81,7 @@ namespace igris
             return *this;
         }
 
-        template <class It> static_vector(It b, It e)
+        template <class It> static_vector(It b, It e) : static_vector()
         {
             for (; b != e; ++b)
             {
@@ -85,7 +89,7 @@ namespace igris
             }
         }
 
-        static_vector(const std::initializer_list<T> &lst)
+        static_vector(const std::initializer_list<T> &lst) : static_vector()
         {
             for (auto &obj : lst)
             {
